@@ -310,6 +310,9 @@ Proof.
   repeat split; auto.
 Qed.
 
+Lemma classic_is8 o : is8 o \/ ~ is8 o.
+Proof. destruct o; cbn [is8]; tauto. Qed.
+
 Lemma typed_width o : typed_read o -> 0 < op_width o.
 Proof. destruct o; cbn [typed_read op_width]; intros; try tauto; lia. Qed.
 
@@ -528,6 +531,431 @@ Proof.
   reflexivity.
 Qed.
 
+(* ---- every reachable state can serve the data: the invariant of all supported histories ------------------ *)
+Definition inv (d : list Z) (st : sys bstate) : Prop :=
+  good d (bst st) (rpos (cur st)) /\ 0 <= rpos (cur st) /\ 0 <= rpos (oth st).
+
+Lemma bbytes_inv d s p bnil n s' r :
+  good d s p -> 0 <= n -> 0 <= p -> bbytes any_backend s bnil n p = Some (s', r) ->
+  good d s' (p + len (br_data r)) /\ random_access s' = random_access s.
+Proof.
+  intros G Hn Hp H.
+  destruct (bbytes_agree d s p bnil n G Hn Hp) as (s1 & r1 & rb & E & _ & _ & _ & _ & G' & RA).
+  rewrite E in H. inversion H; subst. auto.
+Qed.
+
+Lemma read_bytes_inv d s c o n st' r :
+  good d s (rpos c) -> 0 <= n -> 0 <= rpos c -> 0 <= rpos o ->
+  read_bytes any_backend (mkSys s c o) n = Some (st', r) ->
+  inv d st' /\ random_access (bst st') = random_access s.
+Proof.
+  intros G Hn Hp Ho H. unfold read_bytes, set_cur in H. cbn [bst cur oth] in H.
+  destruct (bbytes any_backend s true n (rpos c)) as [[s1 r1]|] eqn:E; [|discriminate].
+  cbn [option_bind fst snd] in H. inversion H; subst.
+  destruct (bbytes_inv d s (rpos c) true n s1 r G Hn Hp E) as (G' & RA).
+  unfold inv. cbn [bst cur oth rpos]. pose proof (len_nonneg (br_data r)). repeat split; auto. lia.
+Qed.
+
+Lemma step_inv d st o st' v :
+  inv d st -> allowed (random_access (bst st)) o -> step any_backend st o = Some (st', v) ->
+  inv d st' /\ random_access (bst st') = random_access (bst st).
+Proof.
+  intros (G & P1 & P2) Hal H. destruct st as [s c oo]. cbn [bst cur oth] in *.
+  assert (Hfix : forall w dec x, 0 <= w -> read_fixed any_backend (mkSys s c oo) w dec = Some (st', x) ->
+                 inv d st' /\ random_access (bst st') = random_access s).
+  { intros w dec x Hw Hr. unfold read_fixed in Hr.
+    destruct (read_bytes any_backend (mkSys s c oo) w) as [[s1 r1]|] eqn:E; [|discriminate].
+    cbn [option_bind fst snd] in Hr. inversion Hr; subst. eapply read_bytes_inv; eauto. }
+  assert (Hu8 : forall x, read_u8 any_backend (mkSys s c oo) = Some (st', x) ->
+                 inv d st' /\ random_access (bst st') = random_access s).
+  { intros x Hr. unfold read_u8 in Hr.
+    destruct (read_bytes any_backend (mkSys s c oo) 1) as [[s1 r1]|] eqn:E; [|discriminate].
+    cbn [option_bind fst snd] in Hr.
+    assert (st' = s1).
+    { destruct (br_nil r1); [inversion Hr; reflexivity|].
+      destruct (peekz (br_data r1) 0); [inversion Hr; reflexivity|discriminate]. }
+    subst. eapply (read_bytes_inv d s c oo 1); eauto; lia. }
+  destruct o; cbn [allowed] in Hal; cbn [step cur bst oth] in H.
+  - rewrite seek_factor in H. inversion H; subst. cbn [bst cur oth].
+    destruct (seek_pure_props (blen any_backend s) c off whence) as (A1 & A2 & A3).
+    split; [|reflexivity]. unfold inv. cbn [bst cur oth]. repeat split; auto.
+    + eapply good_ra; eauto.
+    + apply A3; auto. rewrite (good_len d s _ G). apply len_nonneg.
+  - destruct (bbytes any_backend s false n (rpos c)) as [[s1 r1]|] eqn:E; [|discriminate].
+    cbn [option_bind fst snd] in H. inversion H; subst. unfold set_cur. cbn [bst cur oth].
+    destruct (bbytes_inv d s (rpos c) false n s1 r1 G Hal P1 E) as (G' & RA).
+    unfold inv. cbn [bst cur oth rpos]. pose proof (len_nonneg (br_data r1)). repeat split; auto. lia.
+  - destruct Hal as (Hra & Hn & Hoff).
+    destruct (bbytes any_backend s false n off) as [[s1 r1]|] eqn:E; [|discriminate].
+    cbn [option_bind fst snd] in H. inversion H; subst. unfold set_cur. cbn [bst cur oth].
+    destruct (bbytes_inv d s off false n s1 r1 (good_ra d s _ off Hra G) Hn Hoff E) as (G' & RA).
+    unfold inv. cbn [bst cur oth]. repeat split; auto. eapply good_ra; [congruence|exact G'].
+  - destruct (read_bytes any_backend (mkSys s c oo) n) as [[s1 r1]|] eqn:E; [|discriminate].
+    cbn [option_bind fst snd] in H. inversion H; subst. eapply read_bytes_inv; eauto.
+  - destruct (read_bytes any_backend (mkSys s c oo) 1) as [[s1 r1]|] eqn:E; [|discriminate].
+    cbn [option_bind fst snd] in H.
+    assert (st' = s1).
+    { destruct (br_nil r1); [inversion H; reflexivity|].
+      destruct (peekz (br_data r1) 0); [inversion H; reflexivity|discriminate]. }
+    subst. eapply (read_bytes_inv d s c oo 1); eauto; lia.
+  - destruct (read_u8 any_backend (mkSys s c oo)) as [[s1 x]|] eqn:E; [|discriminate].
+    cbn [option_bind fst snd] in H. inversion H; subst. eapply Hu8; eauto.
+  - eapply (Hfix 2); eauto; lia.
+  - eapply (Hfix 3); eauto; lia.
+  - eapply (Hfix 4); eauto; lia.
+  - eapply (Hfix 8); eauto; lia.
+  - destruct (read_u8 any_backend (mkSys s c oo)) as [[s1 x]|] eqn:E; [|discriminate].
+    cbn [option_bind fst snd] in H. inversion H; subst. eapply Hu8; eauto.
+  - eapply (Hfix 2); eauto; lia.
+  - eapply (Hfix 3); eauto; lia.
+  - eapply (Hfix 4); eauto; lia.
+  - eapply (Hfix 8); eauto; lia.
+  - inversion H; subst. unfold inv; cbn [bst cur oth]; auto.
+  - inversion H; subst. unfold inv; cbn [bst cur oth]; auto.
+  - inversion H; subst. unfold inv; cbn [bst cur oth]; auto.
+  - inversion H; subst. unfold inv, set_cur; cbn [bst cur oth rpos]; auto.
+  - inversion H; subst. unfold inv; cbn [bst cur oth]; auto.
+  - inversion H; subst. unfold inv; cbn [bst cur oth]. repeat split; auto. eapply good_ra; eauto.
+  - tauto.
+  - inversion H; subst. unfold inv; cbn [bst cur oth]; auto.
+  - destruct (read_bytes any_backend (mkSys s c oo) n) as [[s1 r1]|] eqn:E; [|discriminate].
+    cbn [option_bind fst snd] in H. inversion H; subst. eapply read_bytes_inv; eauto.
+Qed.
+
+Lemma run_inv d ops : forall st st' outs,
+  inv d st -> Forall (allowed (random_access (bst st))) ops -> run any_backend st ops = Some (st', outs) ->
+  inv d st'.
+Proof.
+  induction ops as [|o rest IH]; intros st st' outs Hi Hal H; cbn [run] in H.
+  - inversion H; subst. exact Hi.
+  - inversion Hal as [|? ? Ho Hrest]; subst.
+    destruct (step any_backend st o) as [[st1 v]|] eqn:E; [|discriminate]. cbn [option_bind fst snd] in H.
+    destruct (run any_backend st1 rest) as [[st2 vs]|] eqn:E2; [|discriminate]. cbn [option_bind fst snd] in H.
+    inversion H; subst.
+    destruct (step_inv d st o st1 v Hi Ho E) as (Hi1 & RA). rewrite <- RA in Hrest. eapply IH; eauto.
+Qed.
+
+Lemma reachable_inv d st : reachable d st -> inv d st.
+Proof.
+  induction 1 as [s H|st o st' v _ IH Hal Hs].
+  - unfold inv, new_sys. cbn [bst cur oth rpos]. split; [apply healthy_good; exact H|lia].
+  - eapply step_inv; eauto.
+Qed.
+
+Lemma typed_allowed ra op : typed_read op -> allowed ra op.
+Proof. destruct op; cbn [typed_read allowed]; intros; try tauto; lia. Qed.
+
+(* ---- Err() stays nil until a read needs a byte at an index >= len d; then zero values and io.EOF --------- *)
+Theorem eof_exactly_past_end_proof d st op :
+  reachable d st -> typed_read op -> (is8 op -> in_memory (bst st)) ->
+  let p := rpos (cur st) in
+  let w := op_width op in
+  exists st' v,
+    step any_backend st op = Some (st', v) /\ reachable d st' /\
+    (p + w <= len d ->
+       v = read_value op (rlittle (cur st)) (slice d p (p + w)) /\
+       rpos (cur st') = p + w /\ rerr (cur st') = rerr (cur st)) /\
+    (len d < p + w ->
+       zero_obs op (slice d p (p + w)) (rerr (cur st')) v /\
+       rpos (cur st') = Z.max p (len d) /\
+       rerr (cur st') = (if rerr (cur st) =? 0 then E_EOF else rerr (cur st))).
+Proof.
+  intros Hr Ht H8. cbn zeta. destruct (reachable_inv d st Hr) as (G & P1 & P2).
+  pose proof (typed_width op Ht) as Hw. pose proof (len_nonneg d) as Hd.
+  assert (Hreach : forall st' v, step any_backend st op = Some (st', v) -> reachable d st').
+  { intros st' v Hs. eapply R_step; eauto. apply typed_allowed. exact Ht. }
+  destruct st as [s c o]. cbn [bst cur oth] in *.
+  destruct (Z.le_gt_cases (rpos c + op_width op) (len d)) as [Hin|Hout].
+  - destruct (typed_read_in_range d s c o op G P1 Ht Hin) as (s' & S1 & G' & RA).
+    eexists _, _. split; [exact S1|]. split; [eapply Hreach; exact S1|].
+    cbn [cur rpos rerr]. split; [auto|intros; lia].
+  - destruct (classic_is8 op) as [I8|N8].
+    + destruct (H8 I8) as (d' & ->). cbn [good] in G. subst d'.
+      assert (Hw1 : op_width op = 1) by (destruct op; cbn [is8] in I8; try tauto; reflexivity).
+      destruct (read8_past_end_bytes d c o op P1 I8 ltac:(lia)) as (v & S1 & Z0).
+      eexists _, _. split; [exact S1|]. split; [eapply Hreach; exact S1|].
+      cbn [cur rpos rerr]. split; [intros; lia|]. intros _.
+      rewrite slice_past by lia. split; [exact Z0|]. split; [lia|reflexivity].
+    + destruct (typed_read_past_end d s c o op G P1 Ht N8 Hout) as (s' & v & S1 & Z0 & G' & RA).
+      eexists _, _. split; [exact S1|]. split; [eapply Hreach; exact S1|].
+      cbn [cur rpos rerr]. split; [intros; lia|]. intros _.
+      split; [exact Z0|]. split; [|reflexivity].
+      rewrite len_slice_gen by lia. lia.
+Qed.
+
+(* the in-memory backend stays the in-memory backend *)
+Lemma read_bytes_in_memory d c o n st' r :
+  read_bytes any_backend (mkSys (SBytes d) c o) n = Some (st', r) -> bst st' = SBytes d.
+Proof.
+  unfold read_bytes, set_cur. cbn [bst cur oth bbytes any_backend]. unfold bytes_bytes.
+  repeat match goal with |- context [if ?b then _ else _] => destruct b end;
+    cbn [lift option_bind fst snd]; intros H; inversion H; reflexivity.
+Qed.
+
+Lemma step_typed_in_memory st op st' v :
+  typed_read op -> in_memory (bst st) -> step any_backend st op = Some (st', v) -> in_memory (bst st').
+Proof.
+  intros Ht (d & Hd) H. destruct st as [s c o]. cbn [bst] in Hd. subst s. exists d.
+  destruct op; cbn [typed_read] in Ht; try tauto; cbn [step] in H; unfold read_fixed, read_u8 in H;
+    match type of H with context [read_bytes any_backend ?st ?n] =>
+      destruct (read_bytes any_backend st n) as [[s1 r1]|] eqn:E; [|discriminate] end;
+    cbn [option_bind fst snd] in H; apply read_bytes_in_memory in E;
+    repeat match type of H with
+    | context [if ?b then _ else _] => destruct b
+    | context [peekz ?l ?i] => destruct (peekz l i); cbn [option_bind] in H
+    end; inversion H; subst; auto; discriminate.
+Qed.
+
+Lemma eof_err_nonzero e : (if e =? 0 then E_EOF else e) <> 0.
+Proof. destruct (Z.eqb_spec e 0); [discriminate|assumption]. Qed.
+
+Lemma eof_err_idem e : e <> 0 -> (if e =? 0 then E_EOF else e) = e.
+Proof. intros H. destruct (Z.eqb_spec e 0); [contradiction|reflexivity]. Qed.
+
+(* once the reader stands at or past the end, every further typed read returns the zero value, leaves the
+   position where it is and Err() is io.EOF (or the earlier error) for good *)
+Theorem eof_sticky_proof d : forall ops st,
+  reachable d st -> len d <= rpos (cur st) -> Forall typed_read ops ->
+  (in_memory (bst st) \/ Forall (fun o => ~ is8 o) ops) ->
+  let e := if rerr (cur st) =? 0 then E_EOF else rerr (cur st) in
+  exists st' outs,
+    run any_backend st ops = Some (st', outs) /\ reachable d st' /\
+    Forall2 (fun o v => zero_obs o [] e v) ops outs /\
+    rpos (cur st') = rpos (cur st) /\ (ops <> [] -> rerr (cur st') = e).
+Proof.
+  induction ops as [|op rest IH]; intros st Hr Hp Ht Hk; cbn zeta.
+  - exists st, []. cbn [run]. repeat split; auto. congruence.
+  - inversion Ht as [|? ? Ht1 Htr]; subst.
+    assert (H8 : is8 op -> in_memory (bst st)).
+    { intros I8. destruct Hk as [Hk|Hk]; [exact Hk|]. inversion Hk; subst. contradiction. }
+    destruct (eof_exactly_past_end_proof d st op Hr Ht1 H8) as (st1 & v & S1 & Hr1 & _ & Hout).
+    pose proof (typed_width op Ht1) as Hw. pose proof (len_nonneg d) as Hd.
+    destruct (reachable_inv d st Hr) as (_ & P1 & _).
+    destruct (Hout ltac:(lia)) as (Z0 & Hpos & Herr).
+    rewrite slice_past in Z0 by lia. rewrite Z.max_l in Hpos by lia.
+    assert (Hk1 : in_memory (bst st1) \/ Forall (fun o => ~ is8 o) rest).
+    { destruct Hk as [Hk|Hk]; [left; eapply step_typed_in_memory; eauto|right; inversion Hk; assumption]. }
+    destruct (IH st1 Hr1 ltac:(lia) Htr Hk1) as (st' & outs & R & Hr' & F2 & Hpos' & Herr').
+    cbn zeta in *. rewrite Herr in F2, Herr'. rewrite eof_err_idem in F2, Herr' by apply eof_err_nonzero.
+    exists st', (v :: outs). cbn [run]. rewrite S1. cbn [option_bind fst snd]. rewrite R.
+    cbn [option_bind fst snd]. split; [reflexivity|]. split; [exact Hr'|].
+    split; [constructor; [rewrite <- Herr; exact Z0|exact F2]|]. split; [lia|].
+    intros _. destruct rest as [|o2 rest'].
+    + cbn [run] in R. inversion R; subst. exact Herr.
+    + apply Herr'. discriminate.
+Qed.
+
+(* ---- the mmap backend is the in-memory backend, except for zero-length requests --------------------------- *)
+Lemma bytes_bytes_total d bnil n off : exists r, bytes_bytes d bnil n off = Some (d, r).
+Proof.
+  unfold bytes_bytes.
+  repeat match goal with |- context [if ?b then _ else _] => destruct b end; eexists; reflexivity.
+Qed.
+
+Lemma bbytes_mmap d sz bnil n off :
+  n <> 0 ->
+  exists r, bbytes any_backend (SBytes d) bnil n off = Some (SBytes d, r) /\
+            bbytes any_backend (SMmap (mkM (Some d) sz)) bnil n off = Some (SMmap (mkM (Some d) sz), r).
+Proof.
+  intros Hn. destruct (bytes_bytes_total d bnil n off) as (r & E). exists r.
+  cbn [bbytes any_backend]. rewrite (mmap_bytes_eq d sz bnil n off Hn), E. split; reflexivity.
+Qed.
+
+Definition as_mmap (d : list Z) (x : sys bstate * obs) : sys bstate * obs :=
+  (mkSys (SMmap (mkM (Some d) (len d))) (cur (fst x)) (oth (fst x)), snd x).
+
+Lemma step_mmap d c o op :
+  nonzero_len op ->
+  step any_backend (mkSys (SMmap (mkM (Some d) (len d))) c o) op =
+    option_map (as_mmap d) (step any_backend (mkSys (SBytes d) c o) op) /\
+  (forall st' v, step any_backend (mkSys (SBytes d) c o) op = Some (st', v) -> bst st' = SBytes d).
+Proof.
+  intros Hnz.
+  assert (RB : forall n, n <> 0 -> exists r,
+     read_bytes any_backend (mkSys (SBytes d) c o) n =
+       Some (mkSys (SBytes d) (mkReader (rpos c + len (br_data r)) (if rerr c =? 0 then br_err r else rerr c) (rlittle c)) o, r) /\
+     read_bytes any_backend (mkSys (SMmap (mkM (Some d) (len d))) c o) n =
+       Some (mkSys (SMmap (mkM (Some d) (len d))) (mkReader (rpos c + len (br_data r)) (if rerr c =? 0 then br_err r else rerr c) (rlittle c)) o, r)).
+  { intros n Hn. destruct (bbytes_mmap d (len d) true n (rpos c) Hn) as (r & E1 & E2). exists r.
+    unfold read_bytes, set_cur. cbn [bst cur oth]. rewrite E1, E2. split; reflexivity. }
+  destruct op; cbn [nonzero_len] in Hnz; try tauto; cbn [step]; unfold read_fixed, read_u8;
+    try (match goal with |- context [read_bytes any_backend _ ?n] =>
+           destruct (RB n ltac:(lia)) as (r & E1 & E2); rewrite E1, E2 end;
+         cbn [option_bind fst snd option_map as_mmap cur oth];
+         repeat match goal with |- context [if ?b then _ else _] => destruct b end;
+         repeat match goal with |- context [peekz ?l ?i] => destruct (peekz l i) end;
+         cbn [option_bind fst snd option_map as_mmap cur oth];
+         (split; [reflexivity|]); intros st' v H; inversion H; reflexivity).
+  - rewrite !seek_factor. cbn [blen any_backend msize option_map as_mmap fst snd cur oth].
+    split; [reflexivity|]. intros st' v H; inversion H; reflexivity.
+  - destruct (bbytes_mmap d (len d) false n (rpos c) Hnz) as (r & E1 & E2). cbn [cur bst]. rewrite E1, E2.
+    cbn [option_bind fst snd option_map as_mmap cur oth set_cur]. unfold set_cur. cbn [oth cur bst].
+    split; [reflexivity|]. intros st' v H; inversion H; reflexivity.
+  - destruct (bbytes_mmap d (len d) false n off Hnz) as (r & E1 & E2). cbn [cur bst]. rewrite E1, E2.
+    cbn [option_bind fst snd option_map as_mmap cur oth set_cur]. unfold set_cur. cbn [oth cur bst].
+    split; [reflexivity|]. intros st' v H; inversion H; reflexivity.
+  - cbn [option_map as_mmap fst snd cur oth]. split; [reflexivity|]. intros st' v H; inversion H; reflexivity.
+  - cbn [option_map as_mmap fst snd cur oth bst blen any_backend msize]. split; [reflexivity|]. intros st' v H; inversion H; reflexivity.
+  - cbn [option_map as_mmap fst snd cur oth]. split; [reflexivity|]. intros st' v H; inversion H; reflexivity.
+  - cbn [option_map as_mmap fst snd cur oth]. unfold set_cur. cbn [cur oth bst]. split; [reflexivity|]. intros st' v H; inversion H; reflexivity.
+  - cbn [option_map as_mmap fst snd cur oth bst]. split; [reflexivity|]. intros st' v H; inversion H; reflexivity.
+  - cbn [option_map as_mmap fst snd cur oth bst]. split; [reflexivity|]. intros st' v H; inversion H; reflexivity.
+  - cbn [option_map as_mmap fst snd cur oth]. split; [reflexivity|]. intros st' v H; inversion H; reflexivity.
+Qed.
+
+Lemma run_mmap d ops : forall c o,
+  Forall nonzero_len ops ->
+  run any_backend (mkSys (SMmap (mkM (Some d) (len d))) c o) ops =
+  match run any_backend (mkSys (SBytes d) c o) ops with
+  | Some (st', outs) => Some (mkSys (SMmap (mkM (Some d) (len d))) (cur st') (oth st'), outs)
+  | None => None
+  end.
+Proof.
+  induction ops as [|op rest IH]; intros c o Hnz; cbn [run]; [reflexivity|].
+  inversion Hnz as [|? ? H1 Hr]; subst.
+  destruct (step_mmap d c o op H1) as (E & Hb). rewrite E.
+  destruct (step any_backend (mkSys (SBytes d) c o) op) as [[st1 v]|] eqn:S1; cbn [option_map option_bind]; [|reflexivity].
+  specialize (Hb st1 v eq_refl). destruct st1 as [b1 c1 o1]. cbn [bst] in Hb. subst b1.
+  cbn [as_mmap fst snd cur oth]. rewrite (IH c1 o1 Hr).
+  destruct (run any_backend (mkSys (SBytes d) c1 o1) rest) as [[st2 outs]|]; reflexivity.
+Qed.
+
+Theorem mmap_bytes_identical_proof d ops :
+  Forall nonzero_len ops ->
+  run any_backend (new_sys (SMmap (mmap_open d))) ops =
+  match run any_backend (new_sys (SBytes d)) ops with
+  | Some (st', outs) => Some (mkSys (SMmap (mmap_open d)) (cur st') (oth st'), outs)
+  | None => None
+  end.
+Proof. intros H. unfold new_sys, mmap_open. apply run_mmap. exact H. Qed.
+
+(* ---- Read and ReadAt (io.Reader, io.ReaderAt) on every reachable state ------------------------------------ *)
+Lemma bbytes_exact d s p bnil n :
+  good d s p -> 0 <= n -> 0 <= p ->
+  exists s' r,
+    bbytes any_backend s bnil n p = Some (s', r) /\
+    br_data r = slice d p (p + n) /\
+    br_err r = (if (0 <? n) && (len d <? p + n) then E_EOF else E_NIL) /\
+    good d s' (p + len (br_data r)) /\ random_access s' = random_access s.
+Proof.
+  intros G Hn Hp.
+  destruct (bbytes_agree d s p bnil n G Hn Hp) as (s' & r & rb & E & Eb & D & Er & _ & G' & RA).
+  exists s', r. split; [exact E|]. rewrite D, Er. split; [|split; [|rewrite <- D; auto]].
+  - destruct (Z.eq_dec n 0) as [->|Hn0].
+    + rewrite bytes_bytes_zero in Eb by exact Hp. inversion Eb; subst. cbn [br_data nil_res].
+      rewrite slice_alt. symmetry. apply firstz_nonpos. lia.
+    + destruct (bytes_bytes_pos d bnil n p ltac:(lia) Hp) as (rb' & Eb' & Db & _). congruence.
+  - destruct (Z.eq_dec n 0) as [->|Hn0].
+    + rewrite bytes_bytes_zero in Eb by exact Hp. inversion Eb; subst. reflexivity.
+    + destruct (bytes_bytes_pos d bnil n p ltac:(lia) Hp) as (rb' & Eb' & _ & Erb & _).
+      replace rb with rb' by congruence. rewrite Erb.
+      replace (0 <? n) with true by (symmetry; apply Z.ltb_lt; lia). cbn [andb].
+      destruct (Z.leb_spec (p + n) (len d)); destruct (Z.ltb_spec (len d) (p + n)); try reflexivity; lia.
+Qed.
+
+Theorem read_spec_proof d st n :
+  reachable d st -> 0 <= n ->
+  let p := rpos (cur st) in
+  let data := slice d p (p + n) in
+  exists st',
+    step any_backend st (ORead n) =
+      Some (st', VRead (len data) (if (0 <? n) && (len d <? p + n) then E_EOF else E_NIL) data) /\
+    reachable d st' /\ rpos (cur st') = p + len data /\ rerr (cur st') = rerr (cur st) /\ oth st' = oth st.
+Proof.
+  intros Hr Hn. cbn zeta. destruct (reachable_inv d st Hr) as (G & P1 & P2).
+  destruct (bbytes_exact d (bst st) (rpos (cur st)) false n G Hn P1) as (s' & r & E & D & Er & G' & RA).
+  assert (S1 : step any_backend st (ORead n) =
+    Some (set_cur st s' (mkReader (rpos (cur st) + len (br_data r)) (rerr (cur st)) (rlittle (cur st))),
+          VRead (len (br_data r)) (br_err r) (br_data r))).
+  { cbn [step]. rewrite E. reflexivity. }
+  eexists. rewrite <- D, <- Er. split; [exact S1|]. split.
+  - eapply R_step; [exact Hr| |exact S1]. exact Hn.
+  - unfold set_cur. cbn [cur oth rpos rerr]. auto.
+Qed.
+
+Theorem readat_spec_proof d st n off :
+  reachable d st -> random_access (bst st) = true -> 0 <= n -> 0 <= off ->
+  let data := slice d off (off + n) in
+  exists st',
+    step any_backend st (OReadAt n off) =
+      Some (st', VRead (len data) (if (0 <? n) && (len d <? off + n) then E_EOF else E_NIL) data) /\
+    reachable d st' /\ cur st' = cur st /\ oth st' = oth st.
+Proof.
+  intros Hr Hra Hn Hoff. cbn zeta. destruct (reachable_inv d st Hr) as (G & P1 & P2).
+  destruct (bbytes_exact d (bst st) off false n (good_ra d _ _ off Hra G) Hn Hoff) as (s' & r & E & D & Er & G' & RA).
+  assert (S1 : step any_backend st (OReadAt n off) =
+    Some (set_cur st s' (cur st), VRead (len (br_data r)) (br_err r) (br_data r))).
+  { cbn [step]. rewrite E. reflexivity. }
+  eexists. rewrite <- D, <- Er. split; [exact S1|]. split.
+  - eapply R_step; [exact Hr| |exact S1]. cbn [allowed]. auto.
+  - unfold set_cur. cbn [cur oth]. auto.
+Qed.
+
+(* ---- mmap: the round trip, except for empty byte strings ---------------------------------------------------- *)
+Theorem write_read_roundtrip_mmap_proof little vs1 vs2 :
+  Forall valid_value vs1 -> Forall (fun v => value_size v <> 0) vs1 ->
+  exists st' outs,
+    run any_backend (new_sys (SMmap (mmap_open (write_all little (vs1 ++ vs2)))))
+        (OOrder little :: map read_op vs1 ++ [OPos; OLen; OErr]) =
+      Some (st', VNone :: outs ++ [VInt (values_size vs1); VInt (values_size vs2); VInt 0]) /\
+    Forall2 returns outs vs1.
+Proof.
+  intros Hv Hnz.
+  destruct (write_read_roundtrip_proof (SBytes (write_all little (vs1 ++ vs2))) little vs1 vs2
+              (H_bytes _) Hv) as (st' & outs & R & F2).
+  rewrite mmap_bytes_identical_proof, R.
+  - eexists _, outs. split; [reflexivity|exact F2].
+  - constructor; [exact I|]. apply Forall_app. split.
+    + clear -Hnz. induction Hnz as [|v vs H _ IH]; [constructor|]. cbn [map]. constructor; [|exact IH].
+      destruct v; cbn [read_op nonzero_len value_size] in *; auto.
+    + repeat constructor.
+Qed.
+
+(* ---- witnesses of the deviations ------------------------------------------------------------------------------ *)
+(* ReadUint8 / ReadInt8 / ReadByte at the end of the data panic on the stream backends (healthy sources!) *)
+Theorem read8_past_end_streams_refuted_proof :
+  healthy (SReader (mkR [7] [] false E_EOF 0 1)) [7] /\
+  healthy (SSeeker (mkK [7] [] false E_EOF 1 false true)) [7] /\
+  healthy (SReaderAt (mkA [7] [] false E_EOF 1)) [7] /\
+  run any_backend (new_sys (SReader (mkR [7] [] false E_EOF 0 1))) [OU8; OErr; OU8] = None /\
+  run any_backend (new_sys (SSeeker (mkK [7] [] false E_EOF 1 false true))) [OU8; OErr; OReadByte] = None /\
+  run any_backend (new_sys (SReaderAt (mkA [7] [] false E_EOF 1))) [OU8; OErr; OI8] = None /\
+  option_map snd (run any_backend (new_sys (SBytes [7])) [OU8; OErr; OU8; OErr]) =
+    Some [VInt 7; VInt 0; VInt 0; VInt E_EOF].
+Proof.
+  split; [apply (H_reader [7] []); constructor|].
+  split; [apply (H_seeker [7] [] true); constructor|].
+  split; [apply (H_readerat [7])|].
+  repeat split; vm_compute; reflexivity.
+Qed.
+
+(* a source that delivers io.EOF together with the last bytes: Err() = io.EOF after an exact-fit read *)
+Theorem eof_with_last_bytes_refuted_proof :
+  option_map snd (run any_backend (new_sys (SReader (mkR [1; 2] [] true E_EOF 0 2))) [OU16; OErr; OPos; OLen]) =
+    Some [VInt 258; VInt E_EOF; VInt 2; VInt 0] /\
+  option_map snd (run any_backend (new_sys (SSeeker (mkK [1; 2] [] true E_EOF 2 false false))) [OU16; OErr]) =
+    Some [VInt 258; VInt E_EOF] /\
+  option_map snd (run any_backend (new_sys (SReaderAt (mkA [1; 2] [] true E_EOF 2))) [OU16; OErr]) =
+    Some [VInt 258; VInt E_EOF] /\
+  option_map snd (run any_backend (new_sys (SBytes [1; 2])) [OU16; OErr]) = Some [VInt 258; VInt 0].
+Proof. repeat split; vm_compute; reflexivity. Qed.
+
+(* a source that once returns (0, nil): the read fails with "could not read all bytes" inside the data *)
+Theorem zero_length_read_refuted_proof :
+  option_map snd (run any_backend (new_sys (SReader (mkR [1; 2; 3] [1; 0] false E_EOF 0 3))) [OU16; OErr; OPos]) =
+    Some [VInt 0; VInt E_SHORT; VInt 1] /\
+  run any_backend (new_sys (SSeeker (mkK [1; 2; 3] [0] false E_EOF 3 false false))) [OU8] = None.
+Proof. repeat split; vm_compute; reflexivity. Qed.
+
+(* mmap: ReadBytes(0) at the end of the data sets Err() = io.EOF; the in-memory backend does not *)
+Theorem mmap_empty_read_at_end_refuted_proof :
+  option_map snd (run any_backend (new_sys (SMmap (mmap_open [5]))) [OU8; OReadBytes 0; OErr]) =
+    Some [VInt 5; VData true []; VInt E_EOF] /\
+  option_map snd (run any_backend (new_sys (SBytes [5])) [OU8; OReadBytes 0; OErr]) =
+    Some [VInt 5; VData true []; VInt 0] /\
+  write_all false [VU8 5; VBytes []] = [5].
+Proof. repeat split; vm_compute; reflexivity. Qed.
+
 (* ---- non-vacuity --------------------------------------------------------------------------------------- *)
 Definition ex_values : list value := [VU16 513; VI24 (-2); VBytes [7; 8]; VU64 (2 ^ 63 + 5); VI8 (-128)].
 
@@ -559,3 +987,41 @@ Example seek_example :
   seek bytes_backend (mkSys [1; 2; 3; 4; 5; 6; 7; 8; 9; 10] (mkReader 4 0 false) (mkReader 0 0 false)) (-3) 2
   = (mkSys [1; 2; 3; 4; 5; 6; 7; 8; 9; 10] (mkReader 7 0 false) (mkReader 0 0 false), VIntErr 7 0).
 Proof. reflexivity. Qed.
+
+(* a reachable state of a stream backend that stands one byte before the end: OU16 runs past the end there *)
+Example eof_hypotheses_met :
+  exists st, reachable [1; 2; 3] st /\ rpos (cur st) = 2 /\ typed_read OU16 /\ ~ is8 OU16 /\
+             len [1; 2; 3] < rpos (cur st) + op_width OU16 /\
+             option_map snd (step any_backend st OU16) = Some (VInt 0) /\
+             option_map (fun x => rerr (cur (fst x))) (step any_backend st OU16) = Some E_EOF.
+Proof.
+  eexists. split.
+  - eapply (R_step [1; 2; 3] (new_sys (SReader (mkR [1; 2; 3] [1] false E_EOF 0 3))) OU16).
+    + apply R_init. apply (H_reader [1; 2; 3] [1]). repeat constructor.
+    + exact I.
+    + vm_compute. reflexivity.
+  - vm_compute. repeat split; auto; discriminate.
+Qed.
+
+Example sticky_hypotheses_met :
+  exists st, reachable [9] st /\ len [9] <= rpos (cur st) /\ in_memory (bst st) /\
+             option_map snd (run any_backend st [OU8; OU32; OReadByte; OReadBytes 2]) =
+               Some [VInt 0; VInt 0; VIntErr 0 E_EOF; VData true []].
+Proof.
+  eexists. split.
+  - eapply (R_step [9] (new_sys (SBytes [9])) OI8).
+    + apply R_init. apply H_bytes.
+    + exact I.
+    + vm_compute. reflexivity.
+  - split; [vm_compute; discriminate|]. split; [eexists; reflexivity|vm_compute; reflexivity].
+Qed.
+
+Example mmap_roundtrip_hypotheses_met :
+  Forall valid_value [VU24 70000; VBytes [1]] /\ Forall (fun v => value_size v <> 0) [VU24 70000; VBytes [1]].
+Proof. split; repeat constructor; cbn; try lia; discriminate. Qed.
+
+Example mmap_identical_example :
+  Forall nonzero_len [OU16; OSeek 0 0; ORead 9; OU8; OU8] /\
+  option_map snd (run any_backend (new_sys (SMmap (mmap_open [1; 2; 3]))) [OU16; OSeek 0 0; ORead 9; OU8; OU8]) =
+    Some [VInt 258; VIntErr 0 0; VRead 3 E_EOF [1; 2; 3]; VInt 0; VInt 0].
+Proof. split; [repeat constructor; cbn; lia|vm_compute; reflexivity]. Qed.
